@@ -891,6 +891,19 @@ func runFraming(h *H, cuts bool) {
 		}
 	}
 
+	// APPEND sizes above the limit, up to 2^63-1: refused before any octet is awaited (no "+")
+	for _, big := range []string{"104857601", "2147483648", "4294967296", "4294967301", "8589934592", "9223372036854775807"} {
+		stream := []byte("P1 LOGIN u p\r\nP2 APPEND box {" + big + "}\r\n")
+		one(stream, nil, false, false, len(stream), false, "append-over-limit")
+		ts := getServer(false, false)
+		res, _ := runStream(ts, rawSegs(stream), false)
+		for _, t := range res.Toks {
+			if t.Kind == 1 {
+				h.Fail("append-limit-not-enforced", fmt.Sprintf("APPEND {%s} (above the append limit) was answered with a continuation request", big), map[string]interface{}{"stream": string(stream)})
+			}
+		}
+	}
+
 	// AUTHENTICATE exchanges (outside the byte-level model: cleanup and no-panic oracles only),
 	// every way of answering the continuation request, cut at every byte offset
 	for _, resp := range []string{"AHVzZXIAcGFzcw==\r\n", "\r\n", "*\r\n", "=\r\n", " \r\n", "!!!\r\n", "AHVzZXIAcGFzcw=\r\n", "\n", strings.Repeat("QUJD", 2000) + "\r\n"} {
